@@ -268,6 +268,12 @@ def roundtrip_check(ctx, v, prop="C06", where="roundtrip", origin=None):
     except Exception as ex:  # noqa: BLE001
         violation(prop, where, f"str() raised {type(ex).__name__}: {ex}", {"spec": iv.describe(v), "origin": origin})
         return
+    try:
+        if str(v) != text:
+            violation(prop, where, "str() of the same object gives two different texts",
+                      {"spec": iv.describe(v), "first": text, "second": str(v), "origin": origin, "group": "repeat"})
+    except Exception as ex:  # noqa: BLE001
+        violation(prop, where, f"second str() raised {type(ex).__name__}", {"spec": iv.describe(v), "origin": origin})
     path = render_path(v, text)
     ctx.shape("render:" + path)
     try:
